@@ -161,6 +161,14 @@ func vfFlatStored(idx *FlatIndex, id uint32) []float32 {
 // ---- persistent store ----
 
 func vfStoreRotate(st *PersistentHybridIndex)            { st.memtableQueue.Rotate() }
+
+// vfStoreKickFlushWorker wakes the background flush worker the way maybeScheduleFlush does.
+func vfStoreKickFlushWorker(st *PersistentHybridIndex) {
+	select {
+	case st.flushChan <- struct{}{}:
+	default:
+	}
+}
 func vfStoreEvict(st *PersistentHybridIndex)             { st.segmentManager.EvictAllCaches() }
 func vfStoreFrozenCount(st *PersistentHybridIndex) int   { return len(st.memtableQueue.listFrozen()) }
 func vfStoreSegmentCount(st *PersistentHybridIndex) int  { return st.segmentManager.Count() }
